@@ -10,6 +10,7 @@ import asyncio
 import base64
 import collections
 import logging
+import os
 import pickle
 import re
 
@@ -25,6 +26,11 @@ from engineio import json as ejson            # noqa: E402
 IMPORTS = 'From VT Require Import Listener.Listener Listener.RedisRetry Check.C15Check.'
 OWN = D.OWN
 KEEP_NS = '/s'
+REMOTE_SIDS = ['x1', 'x2']        # clients connected to ANOTHER server: their acknowledgements come back on the channel
+# A PLAIN-function callback that raises asyncio.CancelledError under the asyncio manager ends the listener on the
+# unchanged tree (C15_total_refuted; notes/C15.md "CancelledError").  The class is generated only on request:
+# C15_PLAIN_CANCEL=1 -> signature async-listener-ended-by-cancellederror-from-plain-callback
+PLAIN_CANCEL = os.environ.get('C15_PLAIN_CANCEL') == '1'
 
 
 LIT = re.compile(r'\(s2l "[^"]*"\)')
@@ -111,14 +117,50 @@ class Gen:
             for _ in range(rng.randrange(0, 3)):
                 plan.append(('enter', sid, ns, rng.choice(['r1', 'r2', 5, 1, True, ('t', 1), b'rb', 1.5, 't'])))
         ncb = 0
+        nxt = collections.defaultdict(lambda: 1)     # next ack id of callbacks[sid]
+        out = self.outstanding = []                  # application callbacks waiting for their acknowledgement:
+        #                                              (sid, namespace, id of the callback, callback number,
+        #                                               id of the local return path that leads to it or None)
         for sid, ns, _ in clients:
             if rng.random() < 0.5:
                 ncb += 1
                 plan.append(('emitcb', 'ev0', ns, sid, ncb))
+                # emit() registers the application callback, then _handle_emit registers the return path
+                # partial(_return_callback, own, sid, ns, id) for the local client
+                out.append((sid, ns, nxt[sid], ncb, nxt[sid] + 1))
+                nxt[sid] += 2
         if rng.random() < 0.3:
             ncb += 1
             plan.append(('emitcb', 'ev0', KEEP_NS, keep[0], ncb))
+            nxt[keep[0]] += 2
+        # emits with callback to clients of another server: only the application callback is registered here
+        for _ in range(rng.choice([0, 1, 1, 2, 2, 3, 4])):
+            ncb += 1
+            sid, ns = rng.choice(REMOTE_SIDS), rng.choice(['/', '/chat', KEEP_NS])
+            plan.append(('emitcb', 'ev0', ns, sid, ncb))
+            out.append((sid, ns, nxt[sid], ncb, None))
+            nxt[sid] += 1
         return plan, clients, keep
+
+    def app_callback_item(self, is_async):
+        """A `callback` message for an outstanding emit-with-callback: the listener runs the application's
+        callback, which returns, raises an Exception subclass, or (asyncio) raises CancelledError because it
+        awaits / asks a job that the application cancelled.  Directly, or through the local return path."""
+        rng = self.rng
+        sid, ns, cid, n, via = self.outstanding.pop(rng.randrange(len(self.outstanding)))
+        coro = bool(is_async and n % 2)
+        through = via is not None and rng.random() < 0.4
+        beh = rng.choice(['returns', 'raises', 'raises', 'cancelled', 'cancelled'])
+        if beh == 'cancelled' and not (is_async and (coro or through or PLAIN_CANCEL)):
+            # threaded manager: a BaseException is out of the property's domain (and of the parity traces)
+            beh = 'raises'
+        f = {'returns': None, 'raises': rng.choice(D.FAULT_NAMES), 'cancelled': D.CANCEL}[beh]
+        m = {'method': 'callback', 'host_id': OWN, 'sid': sid, 'namespace': ns, 'id': via if through else cid,
+             'args': rng.choice([[], [1, 'a'], (1,), [[1, 2]], [None], 'ab', [{'k': 1}]])}
+        raw, enc = encode(rng, m)
+        kind = 'coro' if coro else 'plain'
+        return with_oracle({'kind': 'msg', 'm': raw, 'fs': [None, None, f] if through else [None, f], 'tag': None,
+                            'label': 'cb-app/%s-%s%s/%s' % (beh, kind, '-via-return-path' if through else '', enc)})
 
     # ---- field pools depending on the scenario's clients
     def sid(self, clients, good=0.7):
@@ -295,7 +337,8 @@ class Gen:
         raw, enc = encode(rng, m)
         return {'kind': 'msg', 'm': raw, 'fs': [], 'tag': ('sent', keep[2], ev, withcb), 'label': 'sentinel/' + enc}
 
-    def scenario(self, probe_id0=False):
+    def scenario(self, probe_id0=False, is_async=None):
+        """is_async: the manager class the scenario is for (None: for both - no CancelledError)."""
         rng = self.rng
         plan, clients, keep = self.plan()
         n = rng.randrange(3, 14 if not self.thorough else 30)
@@ -303,7 +346,11 @@ class Gen:
         while len(items) < n:
             r = rng.random()
             try:
-                if r < 0.40:
+                if self.outstanding and rng.random() < 0.22:
+                    items.append(self.app_callback_item(is_async))
+                    k += 1
+                    items.append(with_oracle(self.sentinel(k, keep)))
+                elif r < 0.40:
                     label, m, raw = self.bad(clients, keep)
                     enc = 'raw'
                     if not raw:
@@ -402,7 +449,7 @@ def lst_case(is_async, plan, items, loop):
         cbool(is_async), cstr(OWN), initA,
         clist(['(%s, %s)' % (tag_term(i['tag']), D.item_term(i)) for i in items]),
         clist([clist(seg) for seg in tA]), finA, obsB, 'None' if finB == finA else '(Some %s)' % finB)
-    return term, pubA
+    return term, pubA, len(tA)
 
 
 # --------------------------------------------------------------------------- API messages
@@ -750,8 +797,8 @@ def rt_case(is_async, items, loop):
 def lst_batch(chk, gen, is_async, n, loop, cases, meta, probes):
     """n generated listener scenarios on one manager class, appended to cases / meta."""
     for i in range(n):
-        plan, items = gen.scenario(probe_id0=probes and i % 50 == 7)
-        term, published = lst_case(is_async, plan, items, loop)
+        plan, items = gen.scenario(probe_id0=probes and i % 50 == 7, is_async=is_async)
+        term, published, nsegs = lst_case(is_async, plan, items, loop)
         for p in published:
             if isinstance(p, dict) and p.get('method') == 'callback' and len(gen.foreign_cb_pool) < 200:
                 try:
@@ -760,8 +807,9 @@ def lst_batch(chk, gen, is_async, n, loop, cases, meta, probes):
                 except TypeError:
                     pass
         cases.append(term)
-        meta.append(('lst', is_async, {'plan': plan, 'items': items}))
-        labels = sorted(set(i['label'] for i in items if i['tag'] == 'bad' or i['kind'] == 'raise'))
+        meta.append(('lst', is_async, {'plan': plan, 'items': items, 'segments': nsegs}))
+        labels = sorted(set(i['label'] for i in items if i['tag'] == 'bad' or i['kind'] == 'raise' or
+                            i['label'].startswith('cb-app/')))
         fk = sorted(set(f for i in items for f in i.get('fs', ()) if f))
         nontriv = bool(labels or fk)
         chk.count(1, (is_async, tuple(labels), tuple(fk)) if nontriv else None,
@@ -769,7 +817,7 @@ def lst_batch(chk, gen, is_async, n, loop, cases, meta, probes):
                    'items': [i['label'] for i in items][:12]} if i < 2 else None)
         for it in items:
             parts = it['label'].split('/')
-            chk.dist(parts[0] + ('/' + parts[1] if parts[0] == 'bad' else ''))
+            chk.dist(parts[0] + ('/' + parts[1] if parts[0] in ('bad', 'cb-app') else ''))
             if any(it.get('fs', ())):
                 chk.dist('item with faults')
 
@@ -802,6 +850,26 @@ def report_property(chk, code, kind, is_async, replay):
                       'over the Redis backend a message was delivered to / lost by a listener that is not subscribed, or a '
                       'sentinel placed after a bad message had no effect (%s manager): after _listen() was restarted the '
                       'channel is not subscribed exactly once' % cls, replay)
+    elif code & 16 and kind == 'lst':
+        # the listener did not read the channel to its end; the item it was handling when it ended
+        info = replay['scenario']
+        k = info.get('segments', 0) - 2
+        last = info['items'][k]['label'] if 0 <= k < len(info['items']) else '?'
+        replay['listener_ended_while_handling'] = (k, last)
+        if last.startswith('cb-app/cancelled-'):
+            what = 'coroutine' if last.startswith('cb-app/cancelled-coro') else 'plain'
+            via = 'via-return-path' in last
+            chk.violation('%s-listener-ended-by-cancellederror-from-%s-callback%s'
+                          % (cls, what, '-via-return-path' if via else ''),
+                          "a `callback` message for an outstanding emit(..., callback=cb) made the listener run the "
+                          "application's %s callback%s, which raised asyncio.CancelledError (it awaits / asks a job "
+                          "the application cancelled; the listener task itself was not cancelled): the %s listener "
+                          "ended silently and the messages that follow (sentinels) were never processed"
+                          % (what, ' (through the local return path _return_callback)' if via else '', cls), replay)
+        else:
+            chk.violation('c15-listener-stopped-before-end-of-channel',
+                          'the %s listener ended while handling item %d (%s): the rest of the channel was never '
+                          'processed' % (cls, k, last), replay)
     elif code & 8:
         chk.violation('c15-callback-id0-pops-counter',
                       "a channel message {'method': 'callback', 'host_id': <own>, 'sid': <sid with callbacks>, "
@@ -825,7 +893,11 @@ def run(chk):
     n_rt = 2000 if chk.thorough else 150
     chk.rule = ('channel sequences (3..13 items quick, 3..29 thorough, plus one sentinel after every bad item) mixing '
                 'valid messages from other hosts with the thirteen ineffective classes, each as dict / pickle / JSON '
-                'str / JSON bytes, local ACK deliveries, raising _listen iterators and per-item fault scripts; a scenario '
+                'str / JSON bytes, local ACK deliveries, raising _listen iterators and per-item fault scripts, and callback '
+                'messages for outstanding emit(..., callback=) calls (clients of another server, or through the local '
+                'return path) whose real application callback - plain function or coroutine, callable instance or function '
+                'object - returns, raises an Exception subclass or, asyncio, raises CancelledError by awaiting a job the '
+                'application cancelled, each followed by a sentinel; a scenario '
                 'is non-trivial when it contains a tagged-ineffective message, a fault or an iterator failure; distinct '
                 'by (manager class, set of item labels = rejection class x encoding, fault kinds); Redis: fault scripts '
                 'of <= 40 library-call outcomes, distinct by the sequence of outcome kinds')
@@ -843,7 +915,12 @@ def run(chk):
         'harness/props/c15.py generators and printers, vt/coqio.py']
     chk.assumptions = [
         'a restarted _listen() continues with the messages that follow (assumption about the broker)',
-        'logger methods do not raise; faults are Exception subclasses (BaseException / CancelledError end the loop by design)',
+        'logger methods do not raise; the random fault scripts raise Exception subclasses; asyncio.CancelledError is raised '
+        'only by application callbacks of the asyncio manager where the source absorbs it (coroutine callbacks, anything '
+        'behind the coroutine _return_callback); a CancelledError raised by a PLAIN-function callback ends the asyncio '
+        'listener on the unchanged tree (Coq: C15_total_refuted; generated only with C15_PLAIN_CANCEL=1, signature '
+        'async-listener-ended-by-cancellederror-from-plain-callback); any BaseException outside Exception ends the '
+        'threaded listener (out of the domain); a cancellation of the listener task itself (shutdown) is not a fault',
         'host ids of distinct servers are distinct (uuid4)',
         'class BCallbackCounter (callback message whose id hits slot 0 of callbacks[sid], the id generator) is '
         'ineffective since /repo commit 2f7b83f; should the defect return, the check reports signature '
@@ -860,9 +937,9 @@ def run(chk):
         # c15-callback-id0-pops-counter; its replay is the minimal reproduction)
         for is_async in (False, True):
             plan, items = minimal_id0_probe()
-            term, _ = lst_case(is_async, plan, items, loop)
+            term, _, nsegs = lst_case(is_async, plan, items, loop)
             cases.append(term)
-            meta.append(('lst', is_async, {'plan': plan, 'items': items}))
+            meta.append(('lst', is_async, {'plan': plan, 'items': items, 'segments': nsegs}))
             chk.count(1, (is_async, 'id0-probe'))
         # what this host publishes
         for is_async in (False, True):
@@ -910,7 +987,7 @@ def run(chk):
     corr_only = []
     new_property_violation = False
     for code, kind, is_async, replay in results:
-        if code & 10:
+        if code & 26:
             report_property(chk, code, kind, is_async, replay)
             new_property_violation |= not (code & 8)
         elif code & 4:
@@ -932,7 +1009,7 @@ def run(chk):
             finally:
                 loop.close()
             for code, kind, is_async, replay in evaluate(chk, cases2, meta2, 'c15s'):
-                if code & 10:
+                if code & 26:
                     report_property(chk, code, kind, is_async, replay)
                     new_property_violation = True
         for kind, is_async, replay in corr_only:
@@ -952,7 +1029,7 @@ def replay(chk, data):
         loop = asyncio.new_event_loop()
         loop.set_exception_handler(lambda l, c: None)
         try:
-            case, _ = lst_case(is_async, plan, items, loop)
+            case, _, _ = lst_case(is_async, plan, items, loop)
         finally:
             loop.close()
         print('re-executed on %s: %d items' % ('AsyncPubSubManager' if is_async else 'PubSubManager', len(items)))
@@ -961,8 +1038,10 @@ def replay(chk, data):
     rc, out = coqio.eval_print('c15_replay', IMPORTS, '', ['c15_eval %s' % case, 'c15_clauses %s' % case,
                                                            'c15_explain %s' % case])
     print('c15_eval (0 = fine, 1 = model/implementation differ, 2 = property violated on the observation, '
-          '4 = tag not justified, 8 = a callbacks[sid] lost its id generator);')
+          '4 = tag not justified, 8 = a callbacks[sid] lost its id generator, 16 = the listener ended before the '
+          'end of the channel);')
     print('c15_clauses = [model=runA; model=runB; segment per item; sentinels delivered; foreign acks / own echoes '
-          'ignored; tagged messages ineffective; tags justified; no id generator lost; no counter-class message in the scenario]')
+          'ignored; tagged messages ineffective; tags justified; no id generator lost; no counter-class message in the '
+          'scenario; the listener read the channel to its end]')
     print(out)
     return 1 if '= 0' not in out.split('\n')[0] else 0
